@@ -539,3 +539,69 @@ def r_likedtype(A, ctx, scope, rule="R-LIKEDTYPE"):
                          "`np.inf` cannot be stored") if bad is not None else "", loc=loc(f, st))
     ctx.extra["like_allocations"] = n
     ctx.floor(rule, n, scope.get("floor", 15))
+
+
+def r_uninit(A, ctx, scope, rule="R-UNINIT"):
+    ctx.rule(rule, "uninitialised allocations are written before they are read: an array created by `np.empty` "
+             "(empty_like) that is filled element by element inside a `for` loop over its own positions receives "
+             "a store on every path through an iteration - no `continue` or untaken branch reaches the next "
+             "iteration without one; otherwise the skipped entries are whatever the allocator left there "
+             "(a result that depends on memory outside the arrays passed in)")
+    n = n_alloc = 0
+    for f in A.prog.all_functions():
+        if not f.module.name.startswith(IDX_SCOPE + ("skglm.estimators",)):
+            continue
+        allocs = [st for st in ast.walk(f.node) if isinstance(st, ast.Assign) and len(st.targets) == 1
+                  and isinstance(st.targets[0], ast.Name) and isinstance(st.value, ast.Call)
+                  and ast.unparse(st.value.func) in ("np.empty", "np.empty_like")]
+        if not allocs:
+            continue
+        cfg = cfg_of(f)
+        for a in allocs:
+            n_alloc += 1
+            v = a.targets[0].id
+            for lp in ast.walk(f.node):
+                if not isinstance(lp, ast.For) or lp.lineno < a.lineno:
+                    continue
+                # loop variables (enumerate / range / zip unpacking)
+                lvars = {x.id for x in ast.walk(lp.target) if isinstance(x, ast.Name)}
+                stores = []
+                for nd in cfg.stmts():
+                    st = nd.ast
+                    if nd.kind != "stmt" or not isinstance(st, (ast.Assign, ast.AugAssign)):
+                        continue
+                    if not (lp.lineno <= getattr(st, "lineno", 0) <= lp.end_lineno):
+                        continue
+                    for t in (st.targets if isinstance(st, ast.Assign) else [st.target]):
+                        if isinstance(t, ast.Subscript) and isinstance(t.value, ast.Name) and t.value.id == v:
+                            first = t.slice.elts[0] if isinstance(t.slice, ast.Tuple) else t.slice
+                            if isinstance(first, ast.Name) and first.id in lvars:
+                                stores.append(nd.id)
+                if not stores:
+                    continue
+                header = cfg.node_of(lp)
+                if header is None:
+                    continue
+                n += 1
+                # from the iteration edge back to the header without passing a store?
+                starts = [x for x in cfg.succ[header] if cfg.nodes[x].kind == "edge" and cfg.nodes[x].label == "iter"]
+                seen, todo, leak = set(), list(starts), False
+                while todo:
+                    x = todo.pop()
+                    if x in seen or x in stores:
+                        continue
+                    seen.add(x)
+                    for y in cfg.succ[x]:
+                        if y == header:
+                            leak = True
+                        else:
+                            todo.append(y)
+                skip = [cfg.nodes[x].ast for x in seen if isinstance(cfg.nodes[x].ast, ast.Continue)]
+                ctx.ob(rule, f"{f.fq}::{v}::for {norm_src(lp.target)}", not leak,
+                       what=f"{f.qualname}: `{norm_src(a)}` is not initialised, and an iteration of `for {norm_src(lp.target)} "
+                            f"in {norm_src(lp.iter)[:30]}` can end without storing `{v}[{'/'.join(sorted(lvars))}]`"
+                            + (f" (`continue` at line {skip[0].lineno})" if skip else "")
+                            + ": that entry is read later with whatever the allocator left in it",
+                       loc=loc(f, a))
+    ctx.extra["empty_allocations"] = n_alloc
+    ctx.floor(rule, n_alloc, scope.get("floor", 6))
